@@ -240,7 +240,7 @@ def grid(ctx):
             if name.startswith("yaml:"):
                 for iso in list(countries[:3]) + ctx.rng.sample(isos, 5):
                     if iso in isos:
-                        for nm_ in (24, 48, 60, 84, 108):
+                        for nm_ in (48, 60, 84, 108):   # 24 months is below what the greenhouse ramp supports (the code asserts it)
                             jobs.append((iso, "%s+NMONTHS=%d" % (name, nm_), dict(o, NMONTHS=nm_)))
         from lib import lpcheck as _lp
         pw = pipeline.pairwise_sets(_lp.OPTION_SPACE, ctx.rng, base=pipeline.BASE_OPTIONS)
